@@ -519,6 +519,11 @@ where
 			return Err(error);
 		}
 
+		// an empty window (windowless methods) serializes as an empty buffer with index 0
+		if buf.is_empty() && index == 0 {
+			return Ok(Self::empty());
+		}
+
 		if (buf.len() as PeriodType) <= index {
 			let error =
 				SerdeError::custom(format!("Index {index} is out of window's buffer bounds."));
